@@ -296,3 +296,61 @@ Definition slive_var (v : avar) : nat :=
 Definition slive (s : sstate) : nat := fold_right (fun v n => slive_var v + n) 0 s.
 
 Definition sinit (nv : nat) : sstate := repeat None nv.
+
+(* ---------------------------------------------------------------------------------------- *)
+(* vocabulary of the property theorems                                                        *)
+(* ---------------------------------------------------------------------------------------- *)
+(* the variables an operation may modify *)
+Definition writes (o : op) : list nat :=
+  match o with
+  | ONew x _ | ODel x | OCopyNew x _ | OAssign x _ | OClear x | OIns x _ _ _ | ORemAt x _
+  | ORemKey x _ | OAddAll x _ _ | ORemAll x _ | OReserve x _ | OResize x _ _ => [x]
+  | OSwap x y => [x; y]
+  end.
+
+Definition arg_vars (a : arg) : list nat :=
+  match a with AVal _ => [] | AKey y _ | AValOf y _ => [y] end.
+(* every variable an operation names *)
+Definition mentions (o : op) : list nat :=
+  match o with
+  | ONew x _ | ODel x | OClear x | ORemAt x _ | OReserve x _ => [x]
+  | OCopyNew x y | OAssign x y | OSwap x y | ORemAll x y | OAddAll x _ y => [x; y]
+  | OIns x _ ka va => x :: arg_vars ka ++ arg_vars va
+  | ORemKey x ka => x :: arg_vars ka
+  | OResize x _ va => x :: arg_vars va
+  end.
+
+(* "as if the argument had been copied first": a reference to an element becomes the value
+   it denotes now; a container passed to itself becomes a copy made in the scratch variable t *)
+Definition dealias_key (s : sstate) (a : arg) : arg :=
+  match a with
+  | AKey _ _ => match sarg_key s a with Some z => AVal z | None => a end
+  | _ => a
+  end.
+Definition dealias_val (s : sstate) (a : arg) : arg :=
+  match a with
+  | AValOf _ _ => match sarg_val s a with Some z => AVal z | None => a end
+  | _ => a
+  end.
+
+Definition dealias (s : sstate) (t : nat) (o : op) : list op :=
+  match o with
+  | OIns x p ka va => [OIns x p (dealias_key s ka) (dealias_val s va)]
+  | ORemKey x ka =>
+      match sget s x with
+      | Some (k, _) => [ORemKey x (if has_key k then dealias_key s ka else dealias_val s ka)]
+      | None => [o]
+      end
+  | OResize x n va => [OResize x n (dealias_val s va)]
+  | OAssign x y => if Nat.eqb x y then [OCopyNew t y; OAssign x t; ODel t] else [o]
+  | OAddAll x p y => if Nat.eqb x y then [OCopyNew t y; OAddAll x p t; ODel t] else [o]
+  | ORemAll x y => if Nat.eqb x y then [OCopyNew t y; ORemAll x t; ODel t] else [o]
+  | _ => [o]
+  end.
+
+(* the de-aliased history: each operation is rewritten in the state it is applied to *)
+Fixpoint dealias_run (s : sstate) (t : nat) (ops : list op) : list op :=
+  match ops with
+  | [] => []
+  | o :: r => dealias s t o ++ dealias_run (snd (spec_step s o)) t r
+  end.
